@@ -1,6 +1,6 @@
 (* C16 -- prune and verify remove exactly what they should.
    Only statements, [exact], Print Assumptions and Examples live here. *)
-From Coq Require Import List NArith Arith Bool.
+From Coq Require Import List NArith Arith Bool Permutation.
 From DS Require Import Gen.Constants Base.Bytes Base.Hash Base.HexId Base.FS Model.LocalStore Model.Prune
      Proofs.LocalStoreProofs Proofs.PruneProofs.
 Import ListNotations.
@@ -69,7 +69,10 @@ Print Assumptions C16_filter_is_on_base_name.
    - every reported id's canonical own-format object fails NewChunkFromStorage,
    - every canonical own-format chunk file whose object fails NewChunkFromStorage is reported,
    - without repair the tree is unchanged; with repair every path is as before or is the removed
-     canonical path of a reported id, and every reported id whose canonical path is a file is removed. *)
+     canonical path of a reported id, and every reported id whose canonical path is a file is removed,
+   - (verifying store) every canonical own-format chunk file that is NOT reported holds an object whose
+     data can be produced and hashes to the id in its name -- for every id, the all-zero one included
+     (since 27b0229). *)
 Theorem C16_verify_exact : forall (H : bytes -> id) (zdecomp : bytes -> option bytes) (st : store)
   fuel bstr repair s0 s' msgs,
   is_dir (stat (st_base st) s0) = true ->
@@ -81,17 +84,46 @@ Theorem C16_verify_exact : forall (H : bytes -> id) (zdecomp : bytes -> option b
   (forall q, stat q s' = stat q s0 \/
      (stat q s' = None /\ repair = true /\ exists i, In i (reported msgs) /\ q = snd (name_from_id st i))) /\
   (repair = true -> forall i en, In i (reported msgs) -> stat (snd (name_from_id st i)) s0 = Some en ->
-     is_dir (Some en) = false -> stat (snd (name_from_id st i)) s' = None).
+     is_dir (Some en) = false -> stat (snd (name_from_id st i)) s' = None) /\
+  (st_skip st = false -> forall i m b, wf_id i -> stat (snd (name_from_id st i)) s0 = Some (EFile m b) ->
+     ~ In i (reported msgs) -> exists d, storage_data zdecomp (st_unc st) b = Some d /\ H d = i).
 Proof. exact verify_exact. Qed.
 Print Assumptions C16_verify_exact.
 
-(* Finding recorded as a theorem: NewChunkFromStorage accepts ANY undecodable or empty object under the
-   all-zero id (Chunk.ID() returns the zero ChunkID when Data() fails), so Verify does not report it. *)
-Theorem C16_zero_id_accepts_undecodable : forall (H : bytes -> id) (zdecomp : bytes -> option bytes) (b : bytes) unc,
+(* The order in which the workers handle the fed ids does not matter when every fed id's canonical path is
+   a file (no alias names): any permutation gives the same reported set and the same tree. *)
+Theorem C16_verify_order_irrelevant : forall (H : bytes -> id) (zdecomp : bytes -> option bytes) (st : store)
+  repair ids ids' s s1 m1 s2 m2,
+  Permutation ids ids' -> Forall wf_id ids ->
+  (forall i, In i ids -> exists en, stat (snd (name_from_id st i)) s = Some en /\ is_dir (Some en) = false) ->
+  verify_all H zdecomp st repair ids s = (s1, m1) -> verify_all H zdecomp st repair ids' s = (s2, m2) ->
+  (forall j, In j (reported m1) <-> In j (reported m2)) /\ (forall q, stat q s1 = stat q s2).
+Proof. exact verify_all_perm. Qed.
+Print Assumptions C16_verify_order_irrelevant.
+
+(* NewChunkFromStorage since 27b0229: an object whose data cannot be produced (empty, undecodable) is
+   invalid for every id ... *)
+Theorem C16_undecodable_always_invalid : forall (H : bytes -> id) (zdecomp : bytes -> option bytes) (b : bytes) unc i,
   storage_data zdecomp unc b = None ->
-  new_chunk_from_storage H zdecomp zero_id b unc false = GetOk b.
-Proof. exact zero_id_accepts_undecodable. Qed.
-Print Assumptions C16_zero_id_accepts_undecodable.
+  new_chunk_from_storage H zdecomp i b unc false = GetInvalid zero_id.
+Proof. exact undecodable_always_invalid. Qed.
+Print Assumptions C16_undecodable_always_invalid.
+
+(* ... whereas the constructor as it was before that commit accepted it under the all-zero id (the
+   property "Verify reports every object that does not match its id" is refuted for the old code). *)
+Theorem C16_zero_id_accepts_undecodable_prefix_refuted :
+  forall (H : bytes -> id) (zdecomp : bytes -> option bytes) (b : bytes) unc,
+  storage_data zdecomp unc b = None ->
+  new_chunk_from_storage_prefix H zdecomp zero_id b unc false = GetOk b.
+Proof. exact zero_id_accepts_undecodable_prefix. Qed.
+Print Assumptions C16_zero_id_accepts_undecodable_prefix_refuted.
+
+(* SFTPStore.Prune since 9329890 removes over the connection the walk holds: for every pool size the
+   model never waits for a connection ... *)
+Theorem C16_prune_never_blocks : forall (tmp_rule : bool) (st : store) (keep : id -> bool) fuel bstr s0,
+  snd (prune_gen tmp_rule fuel st bstr keep s0) <> Some WeBlocked.
+Proof. exact prune_never_blocks. Qed.
+Print Assumptions C16_prune_never_blocks.
 
 (* ---------- non-vacuity ---------- *)
 Definition ex_H (b : bytes) : id := fold_right N.add 0%N b.
@@ -180,3 +212,19 @@ Theorem C16_sftp_temp_never_accepted : forall unc i digits,
   base_file_id unc (hex_id i ++ ext_of unc ++ digits) = None.
 Proof. exact sftp_temp_never_accepted. Qed.
 Print Assumptions C16_sftp_temp_never_accepted.
+
+(* ... whereas the pre-9329890 code with a one-connection pool blocks at the first unreferenced chunk
+   (refuted for the old code; the fixed model prunes the same tree). *)
+Example C16_sftp_prune_deadlock_prefix_refuted :
+  snd (sftp_prune_prefix 1 default_fuel ex_st [115]%N ex_keep ex_tree) = Some WeBlocked /\
+  snd (sftp_prune_prefix 2 default_fuel ex_st [115]%N ex_keep ex_tree) = None /\
+  snd (sftp_prune default_fuel ex_st [115]%N ex_keep ex_tree) = None.
+Proof. vm_compute. repeat split; reflexivity. Qed.
+
+(* the zero-id corner on a concrete tree: "0000/00..00.cacnk" holding garbage is reported now *)
+Example C16_example_zero_id_reported :
+  let z := hex_id 0%N in
+  let t := Dir meta0 [([115]%N, Dir meta0 [(firstn 4 z, Dir meta0 [(z ++ ext_of false, File meta0 [1; 2; 3]%N)])])] in
+  let '(_, msgs, e) := verify ex_H ex_zdecomp default_fuel ex_st [115]%N false t in
+  e = None /\ reported msgs = [0%N].
+Proof. vm_compute. split; reflexivity. Qed.
